@@ -49,7 +49,7 @@ UNITS = [
 GROUP = {
     'name': 'Convert',
     'imports': ['Cellml.Tie.ConvertView'],
-    'header': 'open Units Infer',
+    'header': 'open Cellml.Tie.PConvert\nopen Units Infer',
     'functions': [
         {'file': 'cellmlmanip/units.py',
          'func': 'UnitCalculator.convert_expression_recursively.maybe_convert_expr',
